@@ -17,6 +17,9 @@
                          o = drain the receiver's output after each call (DTLS: matrixDtlsGetOutdata,
                              i.e. including the flight-resend path)
                          t = DTLS: after the input, take one timeout (GetOutdata on an empty outbuf)
+                         z / f = before every call the stack below the caller is filled with 0x00 / 0xff, so that a
+                             local the library forgot to initialise has that value (heap: ASan malloc_fill_byte 0xbe)
+                         s = append " sni=<hex of ssl->expectedName>" to the result
          -> "ok rc=<rc,rc,..> hs=<hsState> fl=<E|C|-> in=<inlen>/<insize>"     no finding
             "FAULT <asan|ubsan>:<function>:<kind>"      sanitizer report (child died)
             "HANG"                                      watchdog alarm (5 s)
@@ -37,7 +40,7 @@
 #include <sanitizer/lsan_interface.h>
 #include <sanitizer/asan_interface.h>
 
-const char *__asan_default_options(void) { return "exitcode=97:leak_check_at_exit=0:allocator_may_return_null=1:malloc_context_size=12:detect_stack_use_after_return=0"; }
+const char *__asan_default_options(void) { return "exitcode=97:leak_check_at_exit=0:allocator_may_return_null=1:malloc_context_size=12:detect_stack_use_after_return=0:max_malloc_fill_size=65536:malloc_fill_byte=190"; }
 const char *__ubsan_default_options(void) { return "print_stacktrace=1"; }
 const char *__lsan_default_options(void) { return "print_suppressions=0"; }
 
@@ -313,6 +316,13 @@ static void emit(const char *s) { fputs(s, g_out); fputc('\n', g_out); fflush(g_
 static void outhex(const unsigned char *b, size_t l) { if (l == 0) { fputs("-", g_out); return; } for (size_t i = 0; i < l; i++) fprintf(g_out, "%02x", b[i]); }
 
 /* body of the child for an x case */
+static __attribute__((noinline)) void poison_stack(int byte)
+{
+    volatile unsigned char pad[48 * 1024];
+    memset((void *) pad, byte, sizeof pad);
+    __asm__ __volatile__("" : : "r"(pad) : "memory");
+}
+
 static void child_x(int to, const char *flags, char **hex, int nhex)
 {
     peer_t *p = peer_of(to); char line[512];
@@ -322,6 +332,7 @@ static void child_x(int to, const char *flags, char **hex, int nhex)
     if (nullc) { p->ssl->decrypt = shim_null; p->ssl->verifyMac = shim_mac_ok; }
     for (int i = 0; i < nhex && !g_verdict[0]; i++) {
         unsigned char *d; size_t l = unhex(hex[i], &d);
+        if (strchr(flags, 'z')) poison_stack(0x00); else if (strchr(flags, 'f')) poison_stack(0xff);
         int rc = feed_api(p, d, (int) l, exact);
         free(d);
         if (out || rc == MATRIXSSL_REQUEST_SEND) drain_out(p, NULL, g_cfg->dtls && rc == MATRIXSSL_REQUEST_SEND);
@@ -333,6 +344,11 @@ static void child_x(int to, const char *flags, char **hex, int nhex)
     for (int i = 0; i < g_nrc; i++) n += snprintf(line + n, sizeof line - n, "%s%d", i ? "," : "", g_rcs[i]);
     snprintf(line + n, sizeof line - n, " hs=%d fl=%s%s in=%d/%d", (int) p->ssl->hsState, (p->ssl->flags & SSL_FLAGS_ERROR) ? "E" : "",
              (p->ssl->flags & SSL_FLAGS_CLOSED) ? "C" : "", (int) p->ssl->inlen, (int) p->ssl->insize);
+    if (strchr(flags, 's')) {
+        n = (int) strlen(line); n += snprintf(line + n, sizeof line - n, " sni=");
+        if (!p->ssl->expectedName) n += snprintf(line + n, sizeof line - n, "-");
+        else for (int i = 0; i < 64 && p->ssl->expectedName[i]; i++) n += snprintf(line + n, sizeof line - n, "%02x", (unsigned char) p->ssl->expectedName[i]);
+    }
     if (g_verdict[0]) { emit(g_verdict); _exit(0); }
     /* delete everything that belongs to the sessions, then look for leaks */
     drop_pair(); matrixSslClose();
@@ -570,8 +586,63 @@ static void child_unit(void *v)
     }
     emit("BADUNIT"); _exit(0);
 }
+/* u pb <hex> <off> <len> <op> ...   the psbuf parse primitives on an object of exactly the given bytes (heap block of
+   that size); psParseBufFromStaticData(&pb, object + off, len), then per op "<op>:<result>@<pb.start - object>":
+     o octet, h uint16, w uint32, t<n> psParseBufTryParseOctets(store), s<n> the same without storing, f<n> psParseTryForward,
+     r psParseTlsRecordHeader, m psParseTlsHandshakeHeader, g psParseGetRemainingLen, k<n> psParseCanRead, e pb.err = 1,
+     v<min>,<max> psParseBufParseTlsVector (an accepted body is then read, as every caller does),
+     V<s>,<e>,<min>,<max> psParseTlsVariableLengthVec(object + s, object + e, ...) (same),
+     c<req>,<tl> psParseBufCopyN into a block of tl bytes, C<req> with a NULL target */
+static void child_pb(void *v)
+{
+    (void) v; char line[8192]; int n = 0; alarm(5);
+    unsigned char *tmp; size_t l = unhex(g_tok[2], &tmp);
+    unsigned char *obj = malloc(l ? l : 1); memcpy(obj, tmp, l); free(tmp);       /* exact size: unhex() appends a byte */
+    long off = atol(g_tok[3]), len = atol(g_tok[4]);
+    psParseBuf_t pb; psParseBufFromStaticData(&pb, obj + off, (size_t) len);
+    for (int i = 5; i < g_ntok && n < (int) sizeof line - 700; i++) {
+        const char *a = g_tok[i]; char op = a[0]; long x = 0, y = 0, z = 0, w = 0;
+        sscanf(a + 1, "%ld,%ld,%ld,%ld", &x, &y, &z, &w);
+        if (i > 5) line[n++] = ' ';
+        if (op == 'o') { unsigned char c; if (psParseOctet(&pb, &c)) n += snprintf(line + n, sizeof line - n, "o:%d", c); else n += snprintf(line + n, sizeof line - n, "o:-"); }
+        else if (op == 'h') { uint16_t c; if (psParseBufTryParseBigEndianUint16(&pb, &c)) n += snprintf(line + n, sizeof line - n, "h:%u", c); else n += snprintf(line + n, sizeof line - n, "h:-"); }
+        else if (op == 'w') { uint32_t c; if (psParseBufTryParseBigEndianUint32(&pb, &c)) n += snprintf(line + n, sizeof line - n, "w:%u", c); else n += snprintf(line + n, sizeof line - n, "w:-"); }
+        else if (op == 't' || op == 's') {
+            unsigned char *out = malloc(x ? x : 1); int rc = psParseBufTryParseOctets(&pb, (size_t) x, out, op == 't');
+            if (!rc && x) n += snprintf(line + n, sizeof line - n, "%c:-", op);
+            else if (op == 't') { n += snprintf(line + n, sizeof line - n, "t:%08x", fnv32(out, (size_t) x)); }
+            else n += snprintf(line + n, sizeof line - n, "s:1");
+            free(out);
+        }
+        else if (op == 'f') n += snprintf(line + n, sizeof line - n, "f:%d", psParseTryForward(&pb, (size_t) x));
+        else if (op == 'r') { unsigned char t, ma, mi; unsigned short ln; if (psParseTlsRecordHeader(&pb, &t, &ma, &mi, &ln)) n += snprintf(line + n, sizeof line - n, "r:%d,%d,%d,%d", t, ma, mi, ln); else n += snprintf(line + n, sizeof line - n, "r:-"); }
+        else if (op == 'm') { unsigned char t; unsigned int ln; if (psParseTlsHandshakeHeader(&pb, &t, &ln)) n += snprintf(line + n, sizeof line - n, "m:%d,%u", t, ln); else n += snprintf(line + n, sizeof line - n, "m:-"); }
+        else if (op == 'g') n += snprintf(line + n, sizeof line - n, "g:%zu", psParseGetRemainingLen(&pb));
+        else if (op == 'k') n += snprintf(line + n, sizeof line - n, "k:%d", psParseCanRead(&pb, (size_t) x) ? 1 : 0);
+        else if (op == 'e') { pb.err = 1; n += snprintf(line + n, sizeof line - n, "e:1"); }
+        else if (op == 'v' || op == 'V') {
+            psSizeL_t dl = 0; int rc; const unsigned char *body;
+            if (op == 'v') { rc = psParseBufParseTlsVector(&pb, (psSizeL_t) x, (psSizeL_t) y, &dl); body = pb.buf.start; }
+            else { rc = psParseTlsVariableLengthVec(obj + x, obj + y, (psSizeL_t) z, (psSizeL_t) w, &dl); body = obj + x + (rc > 0 ? rc : 0); }
+            if (rc >= 0) { volatile unsigned char acc = 0; for (psSizeL_t j = 0; j < dl; j++) acc ^= body[j]; (void) acc;
+                           n += snprintf(line + n, sizeof line - n, "%c:%d,%zu", op, rc, (size_t) dl); }
+            else n += snprintf(line + n, sizeof line - n, "%c:%d", op, rc);
+        }
+        else if (op == 'c' || op == 'C') {
+            size_t tl = (size_t) y; unsigned char *tg = op == 'c' ? malloc(tl ? tl : 1) : NULL; if (tg) memset(tg, 0xee, tl ? tl : 1);
+            int32_t rc = psParseBufCopyN(&pb, (size_t) x, tg, &tl);
+            n += snprintf(line + n, sizeof line - n, "%c:%d,%zu,%08x", op, rc, tl, (rc == PS_SUCCESS && tg) ? fnv32(tg, tl) : 0);
+            free(tg);
+        }
+        else n += snprintf(line + n, sizeof line - n, "?");
+        n += snprintf(line + n, sizeof line - n, "@%ld", (long) (pb.buf.start - obj));
+    }
+    line[n] = 0; emit(line); free(obj); _exit(0);
+}
+
 static void op_unit(void)
 {
+    if (g_ntok >= 5 && !strcmp(g_tok[1], "pb")) { run_forked(child_pb, NULL); return; }
     if (g_ntok < 5) { emit("BADCASE"); return; }
     int rc = prepare_state(g_tok[2], atoi(g_tok[3]));
     if (rc < 0) { fprintf(g_out, "PREPFAIL %d\n", rc); fflush(g_out); return; }
